@@ -189,6 +189,8 @@ class Analysis:
         for p in u.params:
             if self.param_norm.get((u.key, p), False):
                 init[p] = 'L'
+            elif isinstance(getattr(self, 'param_tag', {}).get((u.key, p)), tuple):
+                init[p] = self.param_tag[(u.key, p)]          # every call site hands over the result dict of the same function (get_query_info)
         if u.outer is not None:
             # closure: names of the enclosing function that are lowered at the point of the nested definition
             ost = self.states.get(id(u.outer))
@@ -382,6 +384,7 @@ class Analysis:
                             changed = True
             # params
             seen_calls = {}
+            seen_tags = {}
             for u in self.units:
                 if self.is_dead(u):
                     continue
@@ -395,6 +398,7 @@ class Analysis:
                         for i, a in enumerate(n.args):
                             if i + off < len(callee.params):
                                 seen_calls.setdefault((callee.key, callee.params[i + off]), []).append(self.lowered(a, st, u))
+                                seen_tags.setdefault((callee.key, callee.params[i + off]), []).append(st.get(a.id) if isinstance(a, ast.Name) else None)
                         for k in n.keywords:
                             if k.arg in callee.params:
                                 seen_calls.setdefault((callee.key, k.arg), []).append(self.lowered(k.value, st, u))
@@ -409,6 +413,13 @@ class Analysis:
                         ok = False
                     if self.param_norm[(u.key, p)] != ok:
                         self.param_norm[(u.key, p)] = ok
+                        changed = True
+                    tags = seen_tags.get((u.key, p), [])
+                    tag = tags[0] if tags and isinstance(tags[0], tuple) and all(t_ == tags[0] for t_ in tags) else None
+                    if not hasattr(self, 'param_tag'):
+                        self.param_tag = {}
+                    if self.param_tag.get((u.key, p)) != tag:
+                        self.param_tag[(u.key, p)] = tag
                         changed = True
             if not changed:
                 break
